@@ -19,6 +19,7 @@
 (*   "raw2f"   into_writer: two writes, flush after each, drop             *)
 (*   "raw2n"   into_writer: two writes, never flushed, drop                *)
 (*   "raw1l"   into_writer: one big write, flush, drop                     *)
+(*   "rawf1"   into_writer: flush first, then a write, flush, drop         *)
 (*   "drop"    request dropped: Drop for Request responds 500 = "small"    *)
 (* One action per critical section:                                        *)
 (*   Turn(r)   = the first write/flush of writer r blocks on its trigger   *)
@@ -63,6 +64,7 @@ Steps(p) ==
       [] p = "raw2f"   -> << <<"w", "s">>, <<"f">>, <<"w", "s">>, <<"f">> >>
       [] p = "raw2n"   -> << <<"w", "s">>, <<"w", "b">> >>
       [] p = "raw1l"   -> << <<"w", "b">>, <<"f">> >>
+      [] p = "rawf1"   -> << <<"f">>, <<"w", "s">>, <<"f">> >>    \* flush before the first write
       [] p = "err"     -> << <<"w", "s">> >>          \* 400/417: raw_print without flush, then the connection ends
 
 VARIABLES
@@ -170,7 +172,7 @@ NoDup == \A i, j \in 1..Len(Wire) : i # j => Wire[i] # Wire[j]
 EveryoneFinishes == <>AllDone
 \* C06 "no hold-up": after the last flushing plan has finished, everything before it has reached
 \* the socket (only un-flushed raw-writer bytes may stay in the buffer until the connection ends)
-FlushingPlan(p) == p \in {"small", "drop", "big", "chunked", "raw2f", "raw1l"}
+FlushingPlan(p) == p \in {"small", "drop", "big", "chunked", "raw2f", "raw1l", "rawf1"}
 NoHoldUp == AllDone =>
     \A r \in 1..N : FlushingPlan(plan[r]) => \A k \in 1..NParts(r) : \E i \in 1..Len(out) : out[i] = <<r, k>>
 \* C12: with an error response the connection closes after everything was written
